@@ -9,7 +9,8 @@ followed by `|C:<model complement list or ERR>`.
 -/
 import EPV.Proto
 import EPV.Spec.SetSpec
-import EPV.Spec.CharSubsetSpec
+import EPV.Model.CharSubsetParse
+import EPV.Spec.CharGroupStrict
 open EPV.Proto EPV.USet
 
 def parseEntry (s : String) : Option CP :=
@@ -95,6 +96,16 @@ where coreValid : Op → Bool
   | .discard v => v.validArg
   | .ior o | .isub o | .iand o | .ixor o => o.all CP.validArg
 
+/-- the set a character-subset text adds / removes according to the specification: the grammar's
+set where the grammar gives one, nothing where it demands an error; in the lenient zone (`unspec`)
+there is no specification and the model's own reading is carried along so that later states stay
+comparable (the harness then checks model = implementation only) -/
+def strSet (s : List Nat) : List CP :=
+  match strictGroup s with
+  | .ok S => S
+  | .error => []
+  | .unspec => (iterparse s.toArray).getD []
+
 def answer (line : String) : String :=
   let fs := fields line
   match (field fs "W").splitOn ",", parseEntries (field fs "I") with
@@ -113,8 +124,8 @@ def answer (line : String) : String :=
             let x := base + i
             let sx := S.getD i false
             match dop with
-            | .upds s => sx || decide (memL x ((specGroup s).getD []))
-            | .dupds s => sx && !decide (memL x ((specGroup s).getD []))
+            | .upds s => sx || decide (memL x (strSet s))
+            | .dupds s => sx && !decide (memL x (strSet s))
             | .upd o | .iorl o => sx || decide (memL x o)
             | .dupd o | .isubl o => sx && !decide (memL x o)
             | .iandl o => sx && decide (memL x o)
@@ -140,12 +151,15 @@ def answer (line : String) : String :=
             let merr := match op with
               | .upds s | .dupds s => (iterparse s.toArray).isNone
               | _ => false
-            let serr := match op with
-              | .upds s | .dupds s => (specGroup s).isNone
+            let serr : Bool := match op with
+              | .upds s | .dupds s => decide (strictGroup s = .error)
+              | _ => false
+            let suns : Bool := match op with
+              | .upds s | .dupds s => decide (strictGroup s = .unspec)
               | _ => false
             let l' := dstep l op
             let S' := specStepW S op
-            (l', S', safe', outs ++ [(if merr then "MERR " else "") ++ (if serr then "SERR " else "") ++ show1 l' S' safe' okd'], l', okd')) (init, bits0, true, [show1 init bits0 true], init, true)
+            (l', S', safe', outs ++ [(if merr then "MERR " else "") ++ (if serr then "SERR " else "") ++ (if suns then "SUNS " else "") ++ show1 l' S' safe' okd'], l', okd')) (init, bits0, true, [show1 init bits0 true], init, true)
         let c := match complement lfin with
           | some cl => showEntries cl
           | none => "ERR"
